@@ -343,8 +343,8 @@ func (r *runner) orderLaws(fam string, mine func(k int) bool) {
 		}
 		idx := []int{m[a], m[b], m[c2]}
 		r.c.Eval(2)
-		r.c.Nontrivial(3)
-		r.c.Validated(3)
+		r.c.Nontrivial(2) // two expressions evaluated for this triple (the pair results are counted with the pairs)
+		r.c.Validated(2)
 		if get(a, b, 0) == "true" && get(b, c2, 0) == "true" && get(a, c2, 0) != "true" {
 			r.violateT("transitivity", "lt", idx, "x<y and y<z imply x<z", "x<z: "+get(a, c2, 0), conflict(a, b) || conflict(b, c2) || conflict(a, c2))
 		}
